@@ -885,6 +885,11 @@ def fam_recurse(rnd, i):
             steps += [fs("create", removed + ("gone",)), fs("create", removed + ("s", "gone2"))]
         if rnd.random() < 0.6:
             steps.append(drain(w))
+    if not two_roots and removed is None and rnd.random() < 0.25:
+        # Remove of the whole tree while one of its directories has just been deleted and the reader has not got to that yet
+        # (it is parked sending the Create): every kernel watch of the tree must be released, whatever Remove returns
+        steps += [drain(w), fs("mkdir", ("r", "gone9")), obs(w), fs("rmdir", ("r", "gone9")), obs(w),
+                  call(w, "remove", ("r",), "rel", recurse=True), drain(w), obs(w), fs("create", ("r", "after")), drain(w)]
     steps += [drain(w), obs(w), call(w, "close"), drain(w), obs(w), {"s": "recurse", "recurse": False}]
     return steps
 
